@@ -43,7 +43,7 @@ def card_work(payload):
         else:
             ms = [cfg["particle"]["$finals"][x]["mass"] for x in "BCD"]
             ev = kin.lattice3(zoo.M_TOP, ms, payload["K"], seed=payload["seed"], orientations=2)
-        tol = 1e-7 if fourbody else 1e-9  # four-body: alignment angle beta = 0 obtained through acos (see C01)
+        tol = 1e-6 if fourbody else 1e-9  # four-body: alignment angle beta = 0 obtained through acos (see C01)
         rest = zoo.p4_dict(names, ev)
         moving = zoo.p4_dict(names, [kin.boost(a, BETA) for a in ev])
         case0 = {"part": "card", "label": label}
